@@ -1,7 +1,7 @@
 (* RespWriteProof.v — proofs for C03: what Model/RespWrite.v writes is read back by the independent reader
    Spec/RespParse.v as exactly the response the handler asked for. *)
 From Coq Require Import Lia ZifyBool ZifyN ZifyNat.
-From FH Require Import Model.Base Gen.GenC05 Gen.GenC06 Gen.GenC30 Model.Ints Model.ByteClassModel Model.Cookie Model.HeaderWrite
+From FH Require Import Model.Base Gen.GenC03 Gen.GenC05 Gen.GenC06 Gen.GenC30 Model.Ints Model.ByteClassModel Model.Cookie Model.HeaderWrite
   Spec.IntsSpec Proof.IntsProof Spec.HeadLines Proof.HeaderWriteProof Model.RespWrite Spec.RespParse Spec.RespSpec Proof.RespParseProof.
 Open Scope N_scope.
 Notation take_line := RespParse.take_line.
@@ -484,6 +484,29 @@ Proof.
     now rewrite chunked_final.
 Qed.
 
+(* ------------------------------------------------------------------ the body-less statuses come from the source *)
+(* mscl_ints (Gen/GenC03.v) are the integer constants of ResponseHeader.mustSkipContentLength in source order:
+     if statusCode < 100 || statusCode == StatusOK { return false }
+     return statusCode == StatusNotModified || statusCode == StatusNoContent || statusCode < 200
+   Any status added to or removed from that function changes the list and breaks this lemma (and with it every theorem). *)
+Definition mscl_of (l : list Z) (sc : Z) : option bool :=
+  match l with
+  | [a; b; c; d; e] => Some (if (sc <? a) || (sc =? b) then false else (sc =? c) || (sc =? d) || (sc <? e))%Z
+  | _ => None
+  end.
+Lemma mustSkip_from_source r : mscl_of mscl_ints (RStatusCode r) = Some (mustSkipContentLength r).
+Proof. reflexivity. Qed.
+
+(* for every status an HTTP/1.1 message can carry (>= 100) fasthttp's body-less set is the RFC's (1xx, 204, 304) *)
+Lemma some_inj {A} (a b : A) : Some a = Some b -> a = b. Proof. congruence. Qed.
+Lemma mustSkip_rfc r : (100 <= RStatusCode r)%Z -> mustSkipContentLength r = no_body_status (RStatusCode r).
+Proof.
+  intros H. rewrite <- (some_inj _ _ (mustSkip_from_source r)). unfold mscl_ints. unfold no_body_status.
+  destruct (Z.ltb_spec (RStatusCode r) 100); [lia|]. cbn [orb].
+  destruct (Z.eqb_spec (RStatusCode r) 200) as [E|Hn]; [rewrite E; reflexivity|].
+  destruct (RStatusCode r <? 200)%Z, (RStatusCode r =? 204)%Z, (RStatusCode r =? 304)%Z; reflexivity.
+Qed.
+
 (* ------------------------------------------------------------------ facts about SetContentLength as Write uses it *)
 Lemma RStatusCode_SCL r n : RStatusCode (RSetContentLength r n) = RStatusCode r.
 Proof.
@@ -496,13 +519,7 @@ Proof. unfold mustSkipContentLength. now rewrite RStatusCode_SCL. Qed.
 Definition in_scope (r : resp) : Prop := (200 <= RStatusCode r <= 999)%Z.
 
 Lemma mustSkip_scope r : in_scope r -> mustSkipContentLength r = no_body_status (RStatusCode r).
-Proof.
-  unfold in_scope, mustSkipContentLength, no_body_status, StatusOK, StatusNotModified, StatusNoContent. cbv zeta. intros H.
-  destruct (Z.ltb_spec (RStatusCode r) 100); [lia|]. destruct (Z.ltb_spec (RStatusCode r) 200); [lia|]. cbn [orb].
-  destruct (Z.eqb_spec (RStatusCode r) 200) as [E|Hn].
-  - rewrite E. reflexivity.
-  - rewrite orb_false_r. apply orb_comm.
-Qed.
+Proof. intros H. apply mustSkip_rfc. unfold in_scope in H. lia. Qed.
 
 Lemma te_entries_del r : Forall key_ok (hh (rh r)) ->
   filter (fun e : bytes * bytes => te_name (fst e)) (delAllArgsStable (hh (rh r)) strTransferEncoding) = [].
